@@ -68,7 +68,7 @@ pub fn generate_param_access_stubs() -> BTreeMap<&'static str, Vec<AccessPattern
         ("putchar", vec![read()]),
         ("puts", vec![deref()]),
         ("qsort", vec![deref_mut(), read(), read(), deref()]),
-        ("raise", vec![]),
+        ("raise", vec![read()]),
         ("read", vec![read(), deref_mut(), read()]),
         ("realloc", vec![deref_mut(), read()]),
         ("recv", vec![read(), deref_mut(), read(), read()]),
